@@ -19,15 +19,24 @@ def check(ctx):
     from concurrent.futures import ThreadPoolExecutor
     from ..common import BUILD, VERIF, MachineryError, available_interpreters, child_env, run
     from ..tlc import run_tlc
-    ctx.explanation += ("; Trickery.tla models set_trickery_enabled and the caching self-test: every sequence of 4 (thorough 5) set / "
-                        "extract operations on two threads is replayed on real threads and the implementation each extraction "
-                        "used (identified from start_line / varname being filled) is compared with the spec's")
+    ctx.explanation += ("; Trickery.tla models set_trickery_enabled and the caching self-test at the grain of the code (lock-free "
+                        "check, lock acquisition, re-check + self-test under the lock): every sequence of 5 (thorough 7) steps of "
+                        "two threads is replayed on real threads, which are held at the lock's entry and inside it by a gate "
+                        "wrapped around the lock, and the implementation each extraction used (identified from start_line / "
+                        "varname being filled) is compared with the spec's; the same model without the re-check must be rejected "
+                        "by TLC (lost update of an explicit setting)")
     from ..tlc import derive_cfg
-    tcfg = "Trickery.cfg" if ctx.tier == "quick" else derive_cfg("Trickery.cfg", "Trickery5.cfg", {"MaxSteps": "5"})
-    r = ctx.tlc(run_tlc("Trickery", tcfg, workers=1, timeout=900, name="trick"), "mode switch, all sequences of 4 (thorough: 5) operations")
+    tcfg = "Trickery.cfg" if ctx.tier == "quick" else derive_cfg("Trickery.cfg", "Trickery7.cfg", {"MaxSteps": "7"})
+    r = ctx.tlc(run_tlc("Trickery", tcfg, workers=1, timeout=1800, name="trick"), "mode switch, all sequences of 5 (thorough: 7) steps")
     if not r.ok:
         ctx.violation(f"model (Trickery): {r.violated}", r.trace_text[-1500:])
         return
+    # non-vacuity: the design without the re-check under the lock loses an explicit setting, and TLC must say so
+    rn = run_tlc("Trickery", derive_cfg("Trickery.cfg", "Trickery_norecheck.cfg", {"NoRecheck": "TRUE"}), workers=1, timeout=900,
+                 name="trick_norecheck")
+    ctx.states += rn.distinct
+    if rn.ok or not rn.violated:
+        raise MachineryError("Trickery.tla without the re-check under the lock was NOT rejected: the mode-switch properties are vacuous")
     seen, behs = set(), []
     for e in r.emitted:
         k = json.dumps(e["acts"])
